@@ -1097,6 +1097,14 @@ Proof.
   intros a b c H1 H2. congruence.
 Qed.
 
+Lemma order_resolvesb_sound s : order_resolvesb s = true -> order_resolves s (order_tp_of s).
+Proof.
+  unfold order_resolvesb, order_resolves, order_tp_of. intros H lsb. apply andb_prop in H as [H1 H2].
+  destruct lsb.
+  - destruct (type_path_maybe_with_substitutes s (order_path_of true) []); try discriminate H1. reflexivity.
+  - destruct (type_path_maybe_with_substitutes s (order_path_of false) []); try discriminate H2. reflexivity.
+Qed.
+
 (** ** a concrete program on which every hypothesis holds: [a::Foo<T> { x: T, y: Box<Vec<T>> }]
     (one compact-attribute field [n: u32]) instantiated at [u16] and at [bool] *)
 Definition ex5_defs : list sdef :=
@@ -1161,7 +1169,12 @@ Proof.
 Qed.
 
 Definition ex5_sd : sdef := nth 0 ex5_defs (mk_sdef [] [] (SBStruct [])).
-Definition ex5_otp (_ : bool) : tpath := TPrim PBool.
+Definition ex5_otp : bool -> tpath := order_tp_of ex5_s.
+
+Lemma ex5_settings_ok : prelude_okb ex5_s = true /\ order_resolves ex5_s ex5_otp /\ render_okb ex5_s ex5_defs = true.
+Proof.
+  split; [vm_compute; reflexivity|]. split; [apply order_resolvesb_sound; vm_compute; reflexivity|vm_compute; reflexivity].
+Qed.
 
 Lemma ex5_hypotheses :
   (forall sd, In sd ex5_defs -> def_okb ex5_s sd = true) /\
